@@ -78,6 +78,7 @@ func replyFor(req []byte, kind byte, dotu bool) []byte {
 }
 
 type clntCase struct {
+	sendhold bool // hold the send goroutine right after it received a request, until the failure has struck and the caller returned
 	hold   bool // hold every caller at rpcnb.linked (between unlock and hand-off) until the failure has struck
 	n      int
 	kinds  []byte
@@ -90,6 +91,14 @@ type clntCase struct {
 func runClntCase(cs clntCase, dotu bool) (line string, results []callRes) {
 	p := newClntPeer(8192, dotu)
 	release := make(chan struct{})
+	if cs.sendhold {
+		hookTable.Store(p.clnt, func(point string, obj interface{}, a, b uint32) {
+			if point == "clntsend.dequeued" {
+				<-release
+			}
+		})
+		defer hookTable.Delete(p.clnt)
+	}
 	if cs.hold {
 		hookTable.Store(p.clnt, func(point string, obj interface{}, a, b uint32) {
 			if point == "rpcnb.linked" {
@@ -124,10 +133,10 @@ func runClntCase(cs clntCase, dotu bool) (line string, results []callRes) {
 	}
 	// wait until all requests were written (held callers have not written anything)
 	deadline := time.Now().Add(3 * time.Second)
-	for !cs.hold && len(p.requests()) < cs.n && time.Now().Before(deadline) {
+	for !cs.hold && !cs.sendhold && len(p.requests()) < cs.n && time.Now().Before(deadline) {
 		time.Sleep(20 * time.Microsecond)
 	}
-	if cs.hold {
+	if cs.hold || cs.sendhold {
 		time.Sleep(500 * time.Microsecond) // let the callers reach the hold point
 	}
 	reqs := p.requests()
@@ -230,6 +239,11 @@ func runClntCase(cs clntCase, dotu bool) (line string, results []callRes) {
 			res[i] = callRes{class: "hang"}
 		}
 	}
+	if cs.sendhold {
+		// every caller has returned and recycled its request: now the send goroutine goes on
+		close(release)
+		time.Sleep(2 * time.Millisecond)
+	}
 	// a later call
 	late := "-"
 	if cs.end != "none" {
@@ -270,7 +284,7 @@ func runClntCase(cs clntCase, dotu bool) (line string, results []callRes) {
 	for _, r := range res {
 		fmt.Fprintf(&sb, " %s:%d", r.class, b2i(r.own))
 	}
-	fmt.Fprintf(&sb, " ; LATE %s ; DISTINCT %d ; HANG %d ; TAGSBACK %d", late, b2i(distinct && (cs.hold || len(tags) == cs.n)), b2i(hang), b2i(tagsOK || hang))
+	fmt.Fprintf(&sb, " ; LATE %s ; DISTINCT %d ; HANG %d ; TAGSBACK %d", late, b2i(distinct && (cs.hold || cs.sendhold || len(tags) == cs.n)), b2i(hang), b2i(tagsOK || hang))
 	fmt.Fprintf(&sb, " ; DISTURBED %d", b2i(disturbed))
 	return sb.String(), res
 }
@@ -372,6 +386,14 @@ func modeClnt(tier string, args []string) {
 		l, _ := runClntCase(cs, true)
 		emit("%s", l)
 		stat("clnt.held_cases", 1)
+	}
+	// the send goroutine caught between receiving a request and reading it when the connection fails
+	for r := 0; r < rounds*4; r++ {
+		n := 1 + r%3
+		cs := clntCase{sendhold: true, n: n, kinds: []byte("MMMM")[:n], order: rng.Perm(n), cut: 0, end: []string{"eof", "garbage", "oversize", "unknowntag"}[r%4]}
+		l, _ := runClntCase(cs, true)
+		emit("%s", l)
+		stat("clnt.sendheld_cases", 1)
 	}
 	// soak: consecutive calls over one connection; tags must be recycled
 	ncalls := 3000
